@@ -202,7 +202,7 @@ func (m *UDPMuxDefault) GetConn(ufrag string, addr net.Addr) (net.PacketConn, er
 		muxedConn = m.createMuxedConn(ufrag)
 		go func() {
 			<-muxedConn.CloseChannel()
-			m.RemoveConnByUfrag(ufrag)
+			m.removeConns(ufrag, muxedConn)
 		}()
 
 		if isIPv6 {
@@ -223,16 +223,23 @@ func (m *UDPMuxDefault) GetConn(ufrag string, addr net.Addr) (net.PacketConn, er
 
 // RemoveConnByUfrag stops and removes the muxed packet connection.
 func (m *UDPMuxDefault) RemoveConnByUfrag(ufrag string) {
+	m.removeConns(ufrag, nil)
+}
+
+// removeConns removes the connections registered under ufrag; with only != nil
+// (a closed connection cleaning up after itself) it leaves any other connection
+// that is registered under the same ufrag alone.
+func (m *UDPMuxDefault) removeConns(ufrag string, only *udpMuxedConn) {
 	removedConns := make([]*udpMuxedConn, 0, 2)
 
 	// Keep lock section small to avoid deadlock with conn lock.
 	verifhook.Yield("mr.r_unlist")
 	m.mu.Lock()
-	if c, ok := m.connsIPv4[ufrag]; ok {
+	if c, ok := m.connsIPv4[ufrag]; ok && (only == nil || c == only) {
 		delete(m.connsIPv4, ufrag)
 		removedConns = append(removedConns, c)
 	}
-	if c, ok := m.connsIPv6[ufrag]; ok {
+	if c, ok := m.connsIPv6[ufrag]; ok && (only == nil || c == only) {
 		delete(m.connsIPv6, ufrag)
 		removedConns = append(removedConns, c)
 	}
